@@ -404,8 +404,10 @@ def r12_4(ctx: Ctx):
     body_same = t.body if _is_same_test(test) else t.orelse
     body_new = t.orelse if _is_same_test(test) else t.body
     neg = isinstance(test, ast.UnaryOp) and isinstance(test.op, ast.Not)
-    pol_ok = (not neg) and any(isinstance(x, ast.Expr) and "current_residue.append" in norm(x) for x in body_same) \
-        and any(isinstance(x, ast.Expr) and "_add_residue_init" in norm(x) for x in body_new)
+    from ..pat import find as pfind
+    app_ = [b_ for x in body_same for _, b_ in pfind(x, "V_cur.append(V_atom)")]
+    clo_ = [b_ for x in body_new for _, b_ in pfind(x, "self._add_residue_init(Residue(V_cur))")]
+    pol_ok = (not neg) and bool(app_) and bool(clo_) and app_[0]["V_cur"] == clo_[0]["V_cur"]
     ctx.ob("R12.4", f, "branches of the boundary test", pol_ok,
            "an atom whose (number, name) equals the current residue's is appended to it; otherwise the current residue "
            "is closed and a new one starts with this atom", node=t)
